@@ -28,7 +28,7 @@ func init() {
 		Families: []family{
 			{Name: "dir-histories", Fn: scnC20, Weight: 1},
 		},
-		Rule: "initial directory with 0-12 rotated files audit.log.N (N up to 999, non-contiguous, incl. >= 10 files and two/three-digit suffixes) plus the live file, 0-5 lines each, optional partial tail; " +
+		Rule: "initial directory with 0-12 rotated files audit.log.N (N up to 999, non-contiguous, incl. >= 10 files and two/three-digit suffixes) plus the live file, 0-5 lines each (one in twelve ending in a carriage return of its own), optional partial tail; " +
 			"then 1-25 operations from {append k complete lines, append a prefix of a line, complete it, rotate (rename chain + create), truncate to zero, append a line longer than the read buffer, an event (write/create/chmod/remove/rename) for another file of the directory incl. rotated siblings audit.log.N / .gz / .bak, an attribute change (chmod) of the live file}, " +
 			"each followed by its file-system events and a run to quiescence; read-buffer knob {16,64,4096}; a consumer task drains Lines(); " +
 			"non-trivial = at least one rotation or truncation or partial append and at least 2 rotated files; distinct = distinct (history hash, schedule hash)",
@@ -133,6 +133,12 @@ func scnC20(rc *RunCtx) {
 		s := fmt.Sprintf("type=USER_START msg=audit(%d.000:%d): line %d", 1668460000+lineNo, lineNo, lineNo)
 		if long {
 			s += " " + strings.Repeat("x", bufsz+t.Choose(2*bufsz, "longby"))
+		}
+		if t.Choose(12, "cr") == 11 {
+			// the line's own last byte is a carriage return (a CRLF writer, or binary content): it is
+			// part of the line, only the newline is the terminator
+			s += "\r"
+			rc.Sim.Count("fs.line_ending_in_cr")
 		}
 		return s
 	}
